@@ -29,6 +29,6 @@ func ledgerPartW(run *ev.Run, what string, dq int, mons func(*world.World) []cha
 	acts := valueAlphabet(w)
 	run.Rule = what + " oracle of the chain-level group (lib/mon) on every transition of the miner-contract value alphabet (lock, unlock, collect_reward, fee payment with and without fees / wrong caller, kill, settings updates, failing call with value, plain transfer to the contract wallet) from staked roots"
 	explorePhases(run, w, []phase{
-		{"minersc", acts, [][]chainsim.Action{rootStaked(w), append(rootStaked(w), payFees(w, 0, "m0", 0, "c2", 7))}, run.Pick(dq, 4), secs(run, 50, 600)},
+		{"minersc", acts, [][]chainsim.Action{rootStaked(w), append(rootStaked(w), payFees(w, 0, "m0", 0, "c2", 7))}, run.Pick(dq, 4), secs(run, 50, 300)},
 	}, mons(w)...)
 }
